@@ -4,14 +4,47 @@ pub assume_specification[ is_header_name_token ](b: u8) -> (r: bool) ensures r =
 pub assume_specification[ is_uri_token ](b: u8) -> (r: bool) ensures r == is_uri(b);
 pub assume_specification[ is_header_value_token ](b: u8) -> (r: bool) ensures r == is_hval(b);
 
-// ---- strings: &str is opaque; its bytes are an uninterpreted observer; UTF-8 validity is whatever core decides
+// ---- strings: &str is opaque; its bytes are an uninterpreted observer
 pub uninterp spec fn str_bytes(s: &str) -> Seq<u8>;
-pub uninterp spec fn valid_utf8(s: Seq<u8>) -> bool;
+// UTF-8 validity is DEFINED (Unicode standard, table 3-7 "well-formed UTF-8 byte sequences"); core::str::from_utf8 is assumed to
+// decide exactly this (std contract; Kani leaf leaf_from_utf8_is_table_3_7 compares the two on every sequence of <= 4 bytes)
+pub open spec fn u8_cont(b: u8) -> bool { 0x80 <= b <= 0xBF }
+pub open spec fn utf8_seq_len(s: Seq<u8>, i: int) -> int {
+    let n = s.len() as int;
+    let b0 = s[i];
+    if b0 < 0x80 { 1 }
+    else if 0xC2 <= b0 <= 0xDF && i + 1 < n && u8_cont(s[i + 1]) { 2 }
+    else if b0 == 0xE0 && i + 2 < n && 0xA0 <= s[i + 1] <= 0xBF && u8_cont(s[i + 2]) { 3 }
+    else if (0xE1 <= b0 <= 0xEC || 0xEE <= b0 <= 0xEF) && i + 2 < n && u8_cont(s[i + 1]) && u8_cont(s[i + 2]) { 3 }
+    else if b0 == 0xED && i + 2 < n && 0x80 <= s[i + 1] <= 0x9F && u8_cont(s[i + 2]) { 3 }
+    else if b0 == 0xF0 && i + 3 < n && 0x90 <= s[i + 1] <= 0xBF && u8_cont(s[i + 2]) && u8_cont(s[i + 3]) { 4 }
+    else if 0xF1 <= b0 <= 0xF3 && i + 3 < n && u8_cont(s[i + 1]) && u8_cont(s[i + 2]) && u8_cont(s[i + 3]) { 4 }
+    else if b0 == 0xF4 && i + 3 < n && 0x80 <= s[i + 1] <= 0x8F && u8_cont(s[i + 2]) && u8_cont(s[i + 3]) { 4 }
+    else { 0 }
+}
+pub open spec fn valid_utf8_from(s: Seq<u8>, i: int) -> bool
+    decreases s.len() - i
+{
+    if i < 0 || i >= s.len() { true } else { utf8_seq_len(s, i) > 0 && valid_utf8_from(s, i + utf8_seq_len(s, i)) }
+}
+#[verifier::opaque]
+pub open spec fn valid_utf8(s: Seq<u8>) -> bool { valid_utf8_from(s, 0) }
 pub open spec fn all_ascii(s: Seq<u8>) -> bool { forall|i: int| 0 <= i < s.len() ==> s[i] < 0x80 }
-// ASCII is valid UTF-8 (Unicode standard, table 3-7, first row) -- the fact that makes from_utf8_unchecked sound
-pub broadcast axiom fn axiom_ascii_is_utf8(s: Seq<u8>)
+pub proof fn lemma_ascii_valid_from(s: Seq<u8>, i: int)
+    requires all_ascii(s), 0 <= i,
+    ensures valid_utf8_from(s, i),
+    decreases s.len() - i
+{
+    if i < s.len() { assert(s[i] < 0x80); lemma_ascii_valid_from(s, i + 1); }
+}
+// ASCII is valid UTF-8 (table 3-7, first row) -- the fact that makes from_utf8_unchecked sound; a LEMMA since valid_utf8 is defined
+pub broadcast proof fn lemma_ascii_is_utf8(s: Seq<u8>)
     requires all_ascii(s),
-    ensures #[trigger] valid_utf8(s);
+    ensures #[trigger] valid_utf8(s),
+{
+    reveal(valid_utf8);
+    lemma_ascii_valid_from(s, 0);
+}
 pub assume_specification<'a>[ core::str::from_utf8_unchecked ](b: &'a [u8]) -> (r: &'a str)
     requires all_ascii(b@),
     ensures str_bytes(r) == b@;
